@@ -626,7 +626,13 @@ where
                 //   without this being noticed (the address could not have been reused otherwise), so process it as
                 //   a disconnection before the new stream takes its place.
                 if let Some(old_stream) = self.streams.remove(&addr) {
+                    #[cfg(humphrey_verif)]
+                    crate::verif_trace::push(format!("rm,{}", addr));
+
                     if let Some(handler) = &disconnect_handler {
+                        #[cfg(humphrey_verif)]
+                        crate::verif_trace::push(format!("d,x,{}", addr));
+
                         let async_stream = AsyncStream::disconnected(
                             addr,
                             self.message_sender.clone(),
